@@ -304,8 +304,11 @@ Definition go_write_ok (meth : str) (r : resp) : bool :=
   g_head g || (g_cl g =? -1)%Z || (Z.of_nat (length (concat (reads_of r))) =? g_cl g)%Z.
 
 (* ------------------------------------------------------------------ removeHopByHopHeaders *)
+(* the fields nominated by Connection: each value split at ',', each element trimmed
+   (iff the source does) and canonicalised *)
+Definition conn_token (t : str) : str := canon (if hbh_trims_connection_token then trim_space t else t).
 Definition conn_listed (h : hmap) : list str :=
-  flat_map (fun v => map (fun t => canon (trim_space t)) (split_byte 44 v)) (h_values (b "Connection") h).
+  flat_map (fun v => map conn_token (split_byte 44 v)) (h_values (b "Connection") h).
 Definition remove_hop_by_hop (h : hmap) : hmap :=
   fold_left (fun acc k => h_del k acc) (conn_listed h ++ hop_by_hop) h.
 
